@@ -1,0 +1,74 @@
+// Copyright 2021 TiKV Project Authors.
+//
+// Licensed under the Apache License, Version 2.0 (the "License");
+// you may not use this file except in compliance with the License.
+// You may obtain a copy of the License at
+//
+//     http://www.apache.org/licenses/LICENSE-2.0
+//
+// Unless required by applicable law or agreed to in writing, software
+// distributed under the License is distributed on an "AS IS" BASIS,
+// See the License for the specific language governing permissions and
+// limitations under the License.
+
+//go:build verif
+// +build verif
+
+// Machine-checked contracts for the PD server (checked by /verif/govc; comment-only file).
+// Ghost state: see server/id/zz_verif_contracts.go.
+package server
+
+// Surroundings that are not verified here: treated as having arbitrary effects (havoc) or as plain getters (opaque).
+//@ havoc github.com/tikv/pd/server/cluster::(*RaftCluster).Start, github.com/tikv/pd/server/core::(*Storage).SaveRegion, github.com/tikv/pd/server/core::(*Storage).Flush
+//@ opaque github.com/tikv/pd/server/config::(*PersistOptions).GetMaxReplicas, github.com/tikv/pd/server/cluster::(*RaftCluster).GetReplicationMode, github.com/tikv/pd/server/replication::(*ModeManager).GetReplicationStatus
+
+// ---- C20: bootstrap once, one identity ----
+
+//@ pure validBootstrap(req *pdpb.BootstrapRequest) = req.Store != nil && req.Store.Id != 0 && req.Region != nil && len(req.Region.StartKey) == 0 && len(req.Region.EndKey) == 0 && req.Region.Id != 0 && len(req.Region.Peers) == 1 && pstore(req.Region.Peers[0]) == req.Store.Id && pid(req.Region.Peers[0]) != 0
+
+//@ func checkBootstrapRequest
+//@   props C20
+//@   requires req != nil
+//@   ensures result == nil <==> validBootstrap(req)
+//@   modifies nothing
+
+// All members racing to initialise the cluster id end up with the value that is stored: the key is created
+// only if absent at commit time, an existing value is never overwritten and is the one returned.
+//@ func initOrGetClusterID
+//@   props C20
+//@   ensures [onecommit] etcdn[0] <= old(etcdn[0]) + 1
+//@   ensures [ok-committed] r1 == nil ==> etcdn[0] == old(etcdn[0]) + 1
+//@   ensures [created] r1 == nil && !etcdhas0[key] ==> etcdhas[key] && uf("u64dec", etcdval[key]) == r0
+//@   ensures [existing] r1 == nil && etcdhas0[key] ==> r0 == uf("u64dec", etcdval0[key])
+//@   ensures [never-overwritten] etcdn[0] == old(etcdn[0]) + 1 && etcdhas0[key] ==> etcdn[1] == old(etcdn[1])
+//@   ensures [only-key] etcdn[0] == old(etcdn[0]) + 1 ==> forall k :: k != key ==> etcdval[k] == etcdval0[k] && etcdhas[k] == etcdhas0[k]
+//@   modifies ghost etcdhas, ghost etcdval, ghost etcdlease, ghost etcdn, ghost etcdhas0, ghost etcdval0, ghost etcdlease0, ghost evres
+
+//@ pure rootKey(s *Server) = gocall("path.Join#0/2", s.rootPath, "raft")
+
+// bootstrapCluster: an invalid request never reaches etcd; the single transaction is guarded by the absence of
+// the cluster root and writes exactly cluster meta, bootstrap time, the request's store and the request's region;
+// the cluster is started (and success reported) only after that transaction succeeded.
+//@ func (*Server).bootstrapCluster
+//@   props C20
+//@   requires req != nil && s.persistOptions != nil
+//@   ensures [invalid-no-txn] !old(validBootstrap(req)) ==> r1 != nil && r0 == nil && etcdn[0] == old(etcdn[0])
+//@   at Commit 1 after assert [guard] r1 == nil ==> (r0.Succeeded <==> !etcdhas0[rootKey(s)])
+//@   at Commit 1 after assert [rejected-unchanged] etcdhas0[rootKey(s)] ==> etcdval == etcdval0 && etcdhas == etcdhas0
+//@   at Commit 1 after assert [applied0] r1 == nil && r0.Succeeded && rootKey(s) != bootstrapKey && rootKey(s) != storePath && rootKey(s) != regionPath && bootstrapKey != storePath && bootstrapKey != regionPath && storePath != regionPath ==> etcdhas[rootKey(s)]
+//@   at Commit 1 after assert [applied1] r1 == nil && r0.Succeeded && rootKey(s) != bootstrapKey && rootKey(s) != storePath && rootKey(s) != regionPath && bootstrapKey != storePath && bootstrapKey != regionPath && storePath != regionPath ==> etcdval[rootKey(s)] == str(clusterValue)
+//@   at Commit 1 after assert [applied2] r1 == nil && r0.Succeeded && rootKey(s) != bootstrapKey && rootKey(s) != storePath && rootKey(s) != regionPath && bootstrapKey != storePath && bootstrapKey != regionPath && storePath != regionPath ==> etcdhas[storePath] && etcdval[storePath] == str(storeValue)
+//@   at Commit 1 after assert [applied3] r1 == nil && r0.Succeeded && rootKey(s) != bootstrapKey && rootKey(s) != storePath && rootKey(s) != regionPath && bootstrapKey != storePath && bootstrapKey != regionPath && storePath != regionPath ==> etcdhas[regionPath] && etcdval[regionPath] == str(regionValue)
+//@   at Commit 1 after assert [applied4] r1 == nil && r0.Succeeded && rootKey(s) != bootstrapKey && rootKey(s) != storePath && rootKey(s) != regionPath && bootstrapKey != storePath && bootstrapKey != regionPath && storePath != regionPath ==> etcdhas[bootstrapKey]
+//@   at Commit 1 after assert [four-puts] forall k :: k != rootKey(s) && k != bootstrapKey && k != storePath && k != regionPath ==> etcdval[k] == etcdval0[k] && etcdhas[k] == etcdhas0[k]
+//@   at SaveRegion 1 assert [only-after-success] resp != nil && resp.Succeeded
+//@   modifies *
+
+// Requests carrying another cluster id, or arriving at a non-leader / closed server, are refused.
+//@ func (*Server).validateRequest
+//@   props C20 C03
+//@   requires s.member != nil && s.member.member != nil && s.member.member.MemberId != 0 && (s.member.leadership == nil || leaseTyped(s.member.leadership)) && (s.member.leader.v == nil || typeisptr(s.member.leader.v, pdpb.Member)) && ErrNotLeader != nil
+//@   ensures [cluster-id] result == nil ==> ite(header == nil, 0, header.ClusterId) == s.clusterID
+//@   ensures [serving-leader] result == nil ==> s.isServing != 0 && lastok("Check") && last("Check") > old(evclock[0])
+//@   ensures [leader-is-me] result == nil ==> s.member.leader.v != nil && asptr(s.member.leader.v, pdpb.Member).MemberId == s.member.member.MemberId
+//@   modifies ghost evres
